@@ -81,6 +81,12 @@ func (vc *VC) evalSpecBool(env *SpecEnv, c *Clause) (t Term) {
 			panic(r)
 		}
 	}()
+	if len(c.Consts) > 0 {
+		env = env.child()
+		for k, v := range c.Consts {
+			env.names[k] = SVal{Untyped: big.NewInt(v)}
+		}
+	}
 	v := env.eval(c.Expr)
 	if v.T.T == nil || v.T.T.K != SBool {
 		env.fail("clause is not boolean")
@@ -1154,6 +1160,26 @@ func (env *SpecEnv) callExpr(e *SExpr) SVal {
 			env.fail("fresh() needs a pre-state")
 		}
 		return SVal{T: mk(fmt.Sprintf("(>= %s %s)", r.S, env.old.top.S), sortBool)}
+	case "all":
+		// all(k, lo, hi, body): conjunction of body for the constants k = lo .. hi-1 (bounded, unrolled)
+		if len(e.Args) != 4 || e.Args[0].Op != "id" {
+			env.fail("all(k, lo, hi, body)")
+		}
+		lo, hi := env.eval(e.Args[1]), env.eval(e.Args[2])
+		if lo.Untyped == nil || hi.Untyped == nil || hi.Untyped.Int64()-lo.Untyped.Int64() > 1024 {
+			env.fail("all() needs constant bounds (at most 1024 instances)")
+		}
+		var cs []Term
+		for k := lo.Untyped.Int64(); k < hi.Untyped.Int64(); k++ {
+			ne := env.child()
+			ne.names[e.Args[0].Name] = SVal{Untyped: big.NewInt(k)}
+			b := ne.eval(e.Args[3])
+			if b.T.T == nil || b.T.T.K != SBool {
+				env.fail("all() body is not boolean")
+			}
+			cs = append(cs, b.T)
+		}
+		return SVal{T: tAnd(cs...)}
 	case "has":
 		// has(m, k): key k is present in map m
 		m := env.eval(e.Args[0])
